@@ -82,6 +82,11 @@ def gen_case(rng, big=False):
 
 
 class CompetitionSuite(Suite):
+    has_py_property = True
+
+    def py_property(self, case, out):
+        return property_violation(case, out)
+
     name = "do_competition"
     imports = "From PGF Require Import Base.Prelude Model.Fdr Model.Results Model.Competition Harness.H02."
     case_type = "c02_in * c02_out"
@@ -155,11 +160,28 @@ class CompetitionSuite(Suite):
             yield c
 
 
+def _clean(p):
+    """the property's own reading: decoy and placeholder prefixes stripped"""
+    return p.replace("REV__", "").replace("OBSOLETE__", "").replace("rev_", "")
+
+
+def _all_contain(g, pat):
+    return all(pat in p for p in g)
+
+
+def _counts(inf):
+    """distinct peptides per protein (each protein once per peptide)"""
+    cnt, seen = {}, set()
+    for pep, e, pr in sorted((Fraction(p), e, pr) for p, e, pr in inf):
+        if e not in seen:
+            seen.add(e)
+            for q in dict.fromkeys(pr):
+                cnt[q] = cnt.get(q, 0) + 1
+    return cnt
+
+
 def property_violation(case, out):
-    """C02/C14 evaluated on the implementation's own output (classifies a disagreement)."""
-    from picked_group_fdr import helpers
-    from picked_group_fdr.competition import _clean_protein_id as clean
-    from picked_group_fdr.results import ProteinGroupResult
+    """C02/C14 evaluated on the implementation's own output, with definitions independent of the code under test."""
     if out["n_shuffles"] != 2 and "ok" in out:
         return "tie-order-not-drawn-by-two-shuffles"
     if out["seen_after"]:
@@ -179,27 +201,30 @@ def property_violation(case, out):
         return "ranking-not-in-non-increasing-score-order"
 
     def mem(g):
-        return {";".join(map(clean, g))} if strat == "picked" else {clean(p) for p in g}
+        return {";".join(map(_clean, g))} if strat == "picked" else {_clean(p) for p in g}
 
     def lead(g, inf):
         if strat == "picked":
-            return {";".join(map(clean, g))}
-        cnt = ProteinGroupResult._get_peptide_counts([(float(Fraction(p)), e, pr) for p, e, pr in inf], 1.01)
-        mx = max(cnt.values()) if cnt else 0
-        return {clean(p) for p in g if cnt.get(p, 0) == mx}
+            return {";".join(map(_clean, g))}
+        cnt = _counts(inf)
+        mx = max([cnt.get(p, 0) for p in g] + list(cnt.values()) + [0])
+        return {_clean(p) for p in g if cnt.get(p, 0) == mx}
+
+    def obsolete(g):
+        return _all_contain(g, "OBSOLETE__")
     for g, inf, s in pool:           # removed groups
-        if helpers.is_contaminant(g) or not inf:
+        if _all_contain(g, "CON__") or not inf:
             continue
         if strat == "classic":
             return "classic-strategy-removed-a-group"
         ok = False
         for sg, sinf, ss in surv:
-            if mem(g) & lead(sg, sinf) and (ss > s or (ss == s and (not helpers.is_obsolete(sg) or helpers.is_obsolete(g)))):
+            if mem(g) & lead(sg, sinf) and (ss > s or (ss == s and (not obsolete(sg) or obsolete(g)))):
                 ok = True
         if not ok:
             return "removal-not-justified"
     for g, inf, s in surv:
-        if helpers.is_contaminant(g):
+        if _all_contain(g, "CON__"):
             return "contaminant-survived"
         for sg, sinf, ss in surv:
             if ss > s and strat != "classic" and mem(g) & lead(sg, sinf):
